@@ -1160,6 +1160,12 @@ mod tests {
 #[cfg(uflow_verif)]
 pub use send_rate::{SendRateComp, FeedbackData, VerifRateState};
 
+#[cfg(uflow_verif)]
+pub use reorder_buffer::ReorderBuffer;
+
+#[cfg(uflow_verif)]
+pub use loss_rate::LossIntervalQueue;
+
 /// Scalar projection of the half connection's internal state (verification builds only).
 #[cfg(uflow_verif)]
 #[derive(Clone,Debug,PartialEq)]
